@@ -421,6 +421,11 @@ def run_one(ck, prog):
                     ck.ob("C07.6", f"{p}|indirect-call", False, fn=p, site=ctx.site(bb), detail="a call through a function pointer / dyn before relocation: its target address has not been relocated yet in a static-PIE")
                 elif t.get("resolved_kind") == "virtual" or (t.get("trait_method") and not t.get("resolved") and not c.startswith("core::")):
                     ck.ob("C07.6", f"{p}|virtual-call|{c}", False, fn=p, site=ctx.site(bb), detail="a virtual/unresolved trait call before relocation (vtables hold unrelocated addresses)")
+                elif t.get("callee_inline") not in ("Always", "Intrinsic") and t.get("const_result") is None and not ((t.get("resolved") or c) in prog.fns and prog.fns[t.get("resolved") or c].get("inline") == "Always"):
+                    # in an unoptimised build such a callee is a separate function; position-independent x86_64 code reaches a function of
+                    # another codegen unit through the GOT, whose slots hold unrelocated addresses in a static-PIE at this point
+                    ck.ob("C07.6", f"{p}|out-of-line-call|{t.get('resolved') or c}", False, fn=p, site=ctx.site(bb),
+                          detail=f"`{t.get('resolved') or c}` (inline: {t.get('callee_inline')}) is called before relocation; only #[inline(always)] functions and intrinsics are guaranteed to need no relocated address in every build mode")
                 elif any(c == d or c.endswith(d) for d in MEM_DENY):
                     ck.ob("C07.6", f"{p}|mem-call|{c}", False, fn=p, site=ctx.site(bb), detail=f"`{c}` lowers to a mem* symbol call before symbols are relocated")
             for b in fn["blocks"]:
@@ -434,7 +439,7 @@ def run_one(ck, prog):
                         if x[0] == "cast" and "Unsize" in str(x[1]) and "dyn " in str(x[3]):
                             ck.ob("C07.6", f"{p}|unsize-to-dyn", False, fn=p, detail="a trait object is created before relocation")
         ck.ob("C07.6", "closure-clean", True, detail=f"{len(local)} functions in the pre-relocation closure checked")
-        ck.note(f"house rule (information only): {inline_always} of {len(local)} pre-relocation functions are #[inline(always)]")
+        ck.ob("C07.6", "pre-relocation-functions-inlined", inline_always == len(local), detail=f"{inline_always} of {len(local)} pre-relocation functions are #[inline(always)]; one that is not is reached by a call through the (unrelocated) GOT in an unoptimised static-PIE")
         attrs = prog.crate_attrs("tiny_start") if "tiny_start" in prog.crates else []
         ck.ob("C07.6", "tiny-start-no-builtins", any("NoBuiltins" in a for a in attrs), detail="tiny-start must carry #![no_builtins]")
 
